@@ -560,3 +560,208 @@ Proof.
     intros r0 c0 Hr0 Hc0. pose proof (fl_at F' F HF r0 c0) as H0. unfold in_frame, fld, frow in *. rewrite Enr, Enc in H0.
     specialize (H0 (conj Hr0 Hc0)). split; [apply eqv_dR, H0|apply eqv_fR, H0].
 Qed.
+
+(* ------------------------------------------------------------------ the validity mask of the matching-cost step
+   (criteria.py) at ANY pixel: the dilated no-data masks read a window clipped to the image (upside down: the same
+   rows), the disparity-range bits depend on the column only, mask_border paints the first and the last
+   offset rows -- with two different statements of the source (data[:offset, :] and data[-offset:, :]); the regenerated
+   flag sites must give them the same effect ([bord_sym], re-proved on the generated sites at every run) *)
+
+Definition bord_sym (E : Criteria.env) : Prop :=
+  forall m, Criteria.fire E Criteria.R_bord_top m true = Criteria.fire E Criteria.R_bord_bot m true.
+
+Lemma existsb_ext_in : forall {X} (f g : X -> bool) l, (forall x, In x l -> f x = g x) -> existsb f l = existsb g l.
+Proof.
+  induction l as [|a l IH]; intros H; cbn [existsb]; [reflexivity|].
+  rewrite (H a) by now left. rewrite IH; [reflexivity|]. intros; apply H; now right.
+Qed.
+
+Lemma crit_zrange_In : forall lo hi x, In x (Criteria.zrange lo hi) <-> lo <= x <= hi.
+Proof. intros. unfold Criteria.zrange. rewrite zseq_In. lia. Qed.
+
+Lemma existsb_zrange_rev : forall (g : Z -> bool) K lo hi,
+  existsb (fun i => g (K - i)) (Criteria.zrange lo hi) = existsb g (Criteria.zrange (K - hi) (K - lo)).
+Proof.
+  intros g K lo hi. apply eq_true_iff_eq. rewrite !existsb_exists. split.
+  - intros (i & Hi & Hg). exists (K - i). split; [|exact Hg]. apply crit_zrange_In in Hi. apply crit_zrange_In. lia.
+  - intros (i & Hi & Hg). exists (K - i). apply crit_zrange_In in Hi. split; [apply crit_zrange_In; lia|].
+    replace (K - (K - i)) with i by lia. exact Hg.
+Qed.
+
+Section CritFlip.
+  Import Criteria.
+  Variables (E : env) (L' L : layout) (r c : Z) (an' an : Z -> Z -> bool).
+  Hypothesis Hsame : nr L' = nr L /\ nc L' = nc L /\ off L' = off L /\ dmin L' = dmin L /\ dmax L' = dmax L /\ lhas L' = lhas L
+                     /\ rhas L' = rhas L /\ l_nd L' = l_nd L /\ l_vl L' = l_vl L /\ r_nd L' = r_nd L /\ r_vl L' = r_vl L.
+  Hypothesis Hoff : 0 <= off L.
+  Hypothesis Hr : 0 <= r < nr L.
+  Hypothesis Hc : 0 <= c < nc L.
+  Let r0 := nr L - 1 - r.
+  Hypothesis Hlm : forall i j, 0 <= i < nr L -> 0 <= j < nc L -> lm L' i j = lm L (nr L - 1 - i) j.
+  Hypothesis Hrm : forall i j, 0 <= i < nr L -> 0 <= j < nc L -> rm L' i j = rm L (nr L - 1 - i) j.
+  Hypothesis Han : an' r c = an r0 c.
+  Hypothesis Hsym : bord_sym E.
+
+  Lemma dil_flip : forall (m' m : Z -> Z -> Z) ndv c0,
+    (forall i j, 0 <= i < nr L -> 0 <= j < nc L -> m' i j = m (nr L - 1 - i) j) ->
+    dil L' m' ndv r c0 = dil L m ndv r0 c0.
+  Proof.
+    intros m' m ndv c0 Hm. destruct Hsame as (E1 & E2 & E3 & _). unfold dil. rewrite E1, E2, E3.
+    set (cols := zrange (Z.max 0 (c0 - off L)) (Z.min (nc L - 1) (c0 + off L))).
+    rewrite (existsb_ext_in _ (fun i => (fun i0 => existsb (fun j => m i0 j =? ndv) cols) (nr L - 1 - i))).
+    2:{ intros i Hi. apply crit_zrange_In in Hi. apply existsb_ext_in. intros j Hj. unfold cols in Hj.
+        apply crit_zrange_In in Hj. rewrite Hm by lia. reflexivity. }
+    rewrite (existsb_zrange_rev (fun i0 => existsb (fun j => m i0 j =? ndv) cols)).
+    unfold r0. f_equal. f_equal; lia.
+  Qed.
+
+  Lemma alloc_left_flip : forall m, alloc_left E L' m r c = alloc_left E L m r0 c.
+  Proof.
+    intro m. destruct Hsame as (_ & _ & _ & _ & _ & _ & _ & E1 & E2 & _). unfold alloc_left.
+    rewrite E1, E2, (dil_flip (lm L') (lm L) (l_nd L) c Hlm). unfold isinv. rewrite Hlm by assumption. reflexivity.
+  Qed.
+
+  Lemma alloc_right_flip : forall m, alloc_right E L' m r c = alloc_right E L m r0 c.
+  Proof.
+    intro m. destruct Hsame as (_ & E2 & E3 & E4 & E5 & _ & _ & _ & _ & E6 & E7). unfold alloc_right. rewrite E4, E5.
+    f_equal. apply fold_left_ext_in. intros dsp st Hd. unfold arm_step. destruct st as [[b27 ndr] mm].
+    unfold last_col, range_len, bit1_col, last_col. rewrite E2, E3, E4, E5, E6, E7.
+    destruct ((c + dsp >=? 0 + off L) && (c + dsp <=? nc L - 1 - off L)) eqn:Ev; [|reflexivity].
+    rewrite (dil_flip (rm L') (rm L) (r_nd L) (c + dsp) Hrm). unfold isinv. rewrite Hrm by lia. reflexivity.
+  Qed.
+
+  Lemma validity_mask_px_flip : validity_mask_px E L' r c = validity_mask_px E L r0 c.
+  Proof.
+    destruct Hsame as (_ & E2 & E3 & E4 & E5 & E6 & E7 & _). unfold validity_mask_px.
+    assert (Eb : vm_base E L' c = vm_base E L c).
+    { unfold vm_base, bit1_col, last_col. rewrite E2, E3, E4, E5. reflexivity. }
+    rewrite Eb, E6, E7. pose proof alloc_left_flip as A. pose proof alloc_right_flip as B0.
+    destruct (lhas L); destruct (rhas L); rewrite ?A, ?B0; reflexivity.
+  Qed.
+
+  Lemma mask_border_px_flip : forall m, 0 < off L -> mask_border_px E L' r c m = mask_border_px E L r0 c m.
+  Proof.
+    intros m Ho. destruct Hsame as (E1 & E2 & E3 & _). unfold mask_border_px, py_idx, in_sl. rewrite E1, E2, E3. cbv zeta.
+    replace (off L <? 0) with false by lia. replace (- off L <? 0) with true by lia. unfold r0.
+    replace ((0 <=? nr L - 1 - r) && (nr L - 1 - r <? Z.min (off L) (nr L)))
+      with ((Z.max 0 (nr L + - off L) <=? r) && (r <? nr L)) by lia.
+    replace ((Z.max 0 (nr L + - off L) <=? nr L - 1 - r) && (nr L - 1 - r <? nr L))
+      with ((0 <=? r) && (r <? Z.min (off L) (nr L))) by lia.
+    replace ((Z.min (off L) (nr L) <=? nr L - 1 - r) && (nr L - 1 - r <? Z.max 0 (nr L + - off L)))
+      with ((Z.min (off L) (nr L) <=? r) && (r <? Z.max 0 (nr L + - off L))) by lia.
+    destruct ((0 <=? r) && (r <? Z.min (off L) (nr L))); destruct ((Z.max 0 (nr L + - off L) <=? r) && (r <? nr L));
+      rewrite ?Hsym; reflexivity.
+  Qed.
+
+  Theorem after_mc_flip : after_mc E L' an' r c = after_mc E L an r0 c.
+  Proof.
+    destruct Hsame as (_ & _ & E3 & _). unfold after_mc. rewrite validity_mask_px_flip, Han, E3.
+    destruct (off L >? 0) eqn:Ho; [|reflexivity]. apply mask_border_px_flip. lia.
+  Qed.
+End CritFlip.
+
+(* ------------------------------------------------------------------ matching cost (sad / ssd / census / zncc) and its
+   validity mask, left and right products *)
+
+From Pandora Require Proofs.LocalFlipCostP.
+
+Lemma swap_pix_eqv : forall p q, pix_eqv p q -> pix_eqv (swap_pix p) (swap_pix q).
+Proof.
+  intros p q H. destruct (pix_eqv_fields p q H) as (A1 & A2 & A3 & A4). destruct H as (_ & B1 & B2 & B3 & B4 & B5 & B6).
+  unfold pix_eqv, swap_pix, img_of. cbn. repeat split; congruence || assumption.
+Qed.
+Lemma flipped_swap : forall F' F, flipped pix_eqv F' F -> flipped pix_eqv (swapf F') (swapf F).
+Proof.
+  intros F' F (E1 & E2 & H). unfold flipped, swapf. cbn [f_nr f_nc f_at]. split; [assumption|split; [assumption|]].
+  intros r c Hin. apply swap_pix_eqv. apply (H r c Hin).
+Qed.
+Lemma cfg_wf_swap : forall G, cfg_wf G -> cfg_wf (swapc G).
+Proof.
+  intros G (A1 & A2 & A3 & A4). unfold cfg_wf, swapc. cbn [g_w g_s g_dmin g_dmax]. repeat split; try assumption. lia.
+Qed.
+
+Lemma omask_flip : forall has (g : pix -> Z) (F' F : frame pix) a b,
+  g (f_at F' a b) = g (f_at F (frow F a) b) ->
+  LocalCostP.mask_agree (omask has (fld g F')) (omask has (fld g F)) a b (f_nr F - 1 - a) b.
+Proof. intros has g F' F a b H. destruct has; cbn [omask LocalCostP.mask_agree]; [exact H|exact I]. Qed.
+
+Section MCFlip.
+  Variables (m : mmeas) (E : Criteria.env) (G : cfg).
+  Hypothesis Hwf : cfg_wf G.
+  Hypothesis Hm : meas_wf G m.
+  Variables (F' F : frame pix) (r c : Z).
+  Hypothesis HF : flipped pix_eqv F' F.
+  Hypothesis Hin : in_frame F r c.
+  Hypothesis Hsym : bord_sym E.
+
+  Lemma left_curve_flip :
+    curve (mc_vol m (inp_left G F') (g_dmin G) (g_dmax G)) (n_disp G) r c
+    = curve (mc_vol m (inp_left G F) (g_dmin G) (g_dmax G)) (n_disp G) (frow F r) c.
+  Proof.
+    pose proof (fl_nr F' F HF) as En. pose proof (fl_nc F' F HF) as Ec. destruct Hwf as (Hw & Ho & Hs & Hdd).
+    destruct Hin as [Hr Hc].
+    apply curve_ext. intros k Hk. unfold n_disp in Hk.
+    assert (Y : MatchingCostP.wf_cfg (inp_left G F)) by (unfold MatchingCostP.wf_cfg, inp_left; cbn; tauto).
+    assert (Hcfg : MatchingCost.i_ny (inp_left G F') = MatchingCost.i_ny (inp_left G F) /\
+                   MatchingCost.i_nx (inp_left G F') = MatchingCost.i_nx (inp_left G F) /\
+                   MatchingCost.i_w (inp_left G F') = MatchingCost.i_w (inp_left G F) /\
+                   MatchingCost.i_s (inp_left G F') = MatchingCost.i_s (inp_left G F) /\
+                   MatchingCost.i_vp (inp_left G F') = MatchingCost.i_vp (inp_left G F) /\
+                   MatchingCost.i_nd (inp_left G F') = MatchingCost.i_nd (inp_left G F))
+      by (unfold inp_left; cbn; repeat split; assumption).
+    assert (HL : forall a b, Cost.in_image (MatchingCost.i_ny (inp_left G F)) (MatchingCost.i_nx (inp_left G F)) a b = true ->
+              MatchingCost.i_L (inp_left G F') a b = MatchingCost.i_L (inp_left G F) (MatchingCost.i_ny (inp_left G F) - 1 - a) b /\
+              LocalCostP.mask_agree (MatchingCost.i_mL (inp_left G F')) (MatchingCost.i_mL (inp_left G F)) a b
+                (MatchingCost.i_ny (inp_left G F) - 1 - a) b).
+    { intros a b Hab. unfold inp_left in *. cbn in *. unfold Cost.in_image in Hab.
+      pose proof (fl_at F' F HF a b ltac:(unfold in_frame; lia)) as Hp.
+      split; [unfold fld; apply (eqv_L _ _ Hp)|apply omask_flip; apply (eqv_mL _ _ Hp)]. }
+    assert (HR : forall a b, Cost.in_image (MatchingCost.i_ny (inp_left G F)) (MatchingCost.i_nx (inp_left G F)) a b = true ->
+              MatchingCost.i_R (inp_left G F') a b = MatchingCost.i_R (inp_left G F) (MatchingCost.i_ny (inp_left G F) - 1 - a) b /\
+              LocalCostP.mask_agree (MatchingCost.i_mR (inp_left G F')) (MatchingCost.i_mR (inp_left G F)) a b
+                (MatchingCost.i_ny (inp_left G F) - 1 - a) b).
+    { intros a b Hab. unfold inp_left in *. cbn in *. unfold Cost.in_image in Hab.
+      pose proof (fl_at F' F HF a b ltac:(unfold in_frame; lia)) as Hp.
+      split; [unfold fld; apply (eqv_R _ _ Hp)|apply omask_flip; apply (eqv_mR _ _ Hp)]. }
+    change (frow F r) with (MatchingCost.i_ny (inp_left G F) - 1 - r).
+    destruct m as [| | |zq]; cbn [mc_vol].
+    - apply LocalFlipCostP.sad_model_flip; try assumption; cbn; try lia; split; reflexivity.
+    - apply LocalFlipCostP.ssd_model_flip; try assumption; cbn; try lia; split; reflexivity.
+    - apply LocalFlipCostP.census_model_flip; try assumption; cbn; try lia; try exact Hm; split; reflexivity.
+    - f_equal. apply LocalFlipCostP.zncc_model_flip; try assumption; cbn; try lia; split; reflexivity.
+  Qed.
+
+  Lemma left_flag_flip : forall b' b, b' = b ->
+    Criteria.after_mc E (lay_left G F') (fun _ _ => b') r c = Criteria.after_mc E (lay_left G F) (fun _ _ => b) (frow F r) c.
+  Proof.
+    intros b' b Eb. pose proof (fl_nr F' F HF) as En. pose proof (fl_nc F' F HF) as Ec. pose proof (h0 G Hwf) as Hh.
+    destruct Hin as [Hr Hc].
+    change (frow F r) with (Criteria.nr (lay_left G F) - 1 - r).
+    apply after_mc_flip; unfold lay_left; cbn [Criteria.off Criteria.dmin Criteria.dmax Criteria.lhas Criteria.rhas
+      Criteria.l_nd Criteria.l_vl Criteria.r_nd Criteria.r_vl Criteria.nr Criteria.nc Criteria.lm Criteria.rm]; try assumption.
+    - repeat split; assumption.
+    - intros i j Hi Hj. unfold fld. apply (eqv_mL _ _ (fl_at F' F HF i j (conj Hi Hj))).
+    - intros i j Hi Hj. unfold fld. apply (eqv_mR _ _ (fl_at F' F HF i j (conj Hi Hj))).
+  Qed.
+End MCFlip.
+
+Theorem mc_step_flip : forall m E G, cfg_wf G -> meas_wf G m -> bord_sym E -> flip_ok pix_eqv (mc_step m E G).
+Proof.
+  intros m E G Hwf Hm Hsym F' F HF r c Hin.
+  pose proof (cfg_wf_swap G Hwf) as Hwf'. assert (Hm' : meas_wf (swapc G) m) by (destruct m; exact Hm).
+  pose proof (flipped_swap F' F HF) as HFs.
+  pose proof (left_curve_flip m G Hwf Hm F' F r c HF Hin) as CL.
+  pose proof (left_curve_flip m (swapc G) Hwf' Hm' (swapf F') (swapf F) r c HFs Hin) as CR.
+  rewrite n_disp_swap in CR.
+  change (inp_left (swapc G) (swapf F')) with (inp_right G F') in CR.
+  change (inp_left (swapc G) (swapf F)) with (inp_right G F) in CR.
+  change (frow (swapf F) r) with (frow F r) in CR.
+  cbn [swapc g_dmin g_dmax] in CR.
+  unfold mc_step. cbv zeta. rewrite CL, CR.
+  rewrite (left_flag_flip E G Hwf F' F r c HF Hin Hsym _ _ eq_refl).
+  change (lay_right G F') with (lay_left (swapc G) (swapf F')).
+  change (lay_right G F) with (lay_left (swapc G) (swapf F)).
+  rewrite (left_flag_flip E (swapc G) Hwf' (swapf F') (swapf F) r c HFs Hin Hsym _ _ eq_refl).
+  change (frow (swapf F) r) with (frow F r).
+  apply set_mc_eqv. apply (fl_at F' F HF r c Hin).
+Qed.
